@@ -9,9 +9,9 @@ INST = {
     "I1": ("s1", [1, 2]),
     "I2": ("s3", [1]),
     "I3": ("w3", [1]),
+    "I4": ("s2", [1]),      # same service id as I1, other instance: one wildcard find matches both
 }
 SUBSVC = ["s1", "s2", "s3", "s4"]
-REJECT_CTR = [7]
 
 
 def tcfg(**kw):
@@ -41,7 +41,7 @@ def find_table(insts):
 
 def mon_cfg(tc, insts, ann0=()):
     c = dict(tc)
-    c.update(insts=list(insts), inst=inst_table(insts), findMatch=find_table(insts), rejectCtr=REJECT_CTR,
+    c.update(insts=list(insts), inst=inst_table(insts), findMatch=find_table(insts),
              ann0=list(ann0), peers=["a1", "a2", "a3"])
     return c
 
@@ -53,8 +53,8 @@ def spec_consts(tc, insts, ann0=(), rand_vals=(0, 1, 2, 3), sw="AllOff", max_id=
         if it else "<<>>"
     fm = "[" + ", ".join('%s |-> %s' % (f, tlc.to_tla(set(v))) for f, v in find_table(insts).items()) + "]"
     fields = ", ".join("%s |-> %d" % (k, v) for k, v in tc.items())
-    c = ("[%s, maxId |-> %d, randVals |-> %s, inst |-> %s, ann0 |-> %s, findMatch |-> %s, rejectCtr |-> %s] @@ CfgDefault"
-         % (fields, max_id, tlc.to_tla(set(rand_vals)), inst, tlc.to_tla(list(ann0)), fm, tlc.to_tla(set(REJECT_CTR))))
+    c = ("[%s, maxId |-> %d, randVals |-> %s, inst |-> %s, ann0 |-> %s, findMatch |-> %s] @@ CfgDefault"
+         % (fields, max_id, tlc.to_tla(set(rand_vals)), inst, tlc.to_tla(list(ann0)), fm))
     return {"Match": "<<>>", "Cfg": c, "Sw": sw}
 
 
@@ -62,8 +62,15 @@ def run_schedule(sched, tc, insts, ann0=(), rand=None, t_extra=None):
     st = sdenv.Stack(tim=timings(tc), rand=rand)
     ann = st.prot.announcer
 
+    decisions = []      # (src, svc, eg, ctr, eps) -> acc, for the entries of the datagram being delivered, in order
+
     def decide(sub, src):
-        return sub["ctr"] not in REJECT_CTR
+        key = (src, sub["svc"], sub["eg"], sub["ctr"], tuple(sub["eps"]))
+        for n, (k, acc) in enumerate(decisions):
+            if k == key:
+                del decisions[n]
+                return acc
+        return True
     objs = {}
     for i in insts:
         svcname, egs = INST[i]
@@ -76,6 +83,8 @@ def run_schedule(sched, tc, insts, ann0=(), rand=None, t_extra=None):
         op = inp["op"]
         ev = {k: v for k, v in inp.items() if k not in ("t", "j")}
         if op == "rx":
+            decisions[:] = [((inp["src"], e["svc"], e["eg"], e["ctr"], tuple(e["eps"])), e.get("acc", True))
+                            for e in inp["es"] if e["ty"] == "sub" and e["ttl"] != 0]
             st.rx(ev)
         elif op == "ann_start":
             st.call(ev, ann.start)
